@@ -321,7 +321,13 @@ pub fn process_file_with_cache(
         return FileProcessResult::Skipped(FileSkipReason::UnrecognizedExtension(ext.to_string()));
     };
 
-    let path_key = file_path.to_string_lossy().replace('\\', "/");
+    // The cache file is shared by every invocation in the project, whatever directory it is
+    // started in: entries are keyed by absolute path, so that `./a.rs` seen from two working
+    // directories never answers for the other file.
+    let path_key = std::path::absolute(file_path)
+        .unwrap_or_else(|_| file_path.to_path_buf())
+        .to_string_lossy()
+        .replace('\\', "/");
 
     // Get file metadata for fast cache validation
     let (mtime, size) = match reader.metadata(file_path) {
